@@ -99,13 +99,15 @@ def in_quantifier(case):
     body += b"".join(blocks)
     if kind[0] == "sized" and kind[1] != len(app["steps"]):
         return False, "__len__ lies"
-    if body and (case["req"]["head"] or not has_body):
-        return False, "body bytes for HEAD / bodiless status"
+    if body and case["req"]["head"] and has_body:
+        return False, "body bytes for HEAD"
+    # body bytes produced after a 1xx/204/304 status are in the quantifier: Task.write drops them, and a
+    # file wrapper is not handed over after such a status (fix d117733): the client must find the head only
     declared = cls[0] if cls else None
     # a seekable file wrapper with something to send is handed over and its length re-declared,
     # unless write() has already sent the head (then it is iterated like any other iterable)
     seekable_file = (kind[0] == "file" and kind[1] and len(blocks[0]) > 0 and (declared is None or declared > 0)
-                     and not any(a[0] == "W" for a in T.actions_of(case)))
+                     and has_body and not any(a[0] == "W" for a in T.actions_of(case)))
     return True, {"status": status, "headers": headers, "body": body, "declared": declared,
                   "has_body": has_body, "seekable_file": seekable_file}
 
@@ -149,6 +151,13 @@ def judge(case, info, real, ans):
         short = False
     if real["esc"] != "none":
         return ("exception escaped service()", "none", real["esc"], None)
+    if case["app"]["kind"][0] == "file" and not info["has_body"]:
+        # wsgi.file_wrapper after a 1xx/204/304 status: iterated (every block dropped), closed by the task
+        if real["hand"] != "0":
+            return ("file wrapper handed over to the channel after a 1xx/204/304 status (its bytes follow the body-less head)",
+                    "not handed over", "handed over", None)
+        if real["closes"] != "1":
+            return ("file wrapper not closed exactly once by the task after a 1xx/204/304 status", "1", real["closes"], None)
     if real["hand"] == "1" and any(a[0] == "W" for a in T.actions_of(case)):
         return ("file wrapper handed over after the head had already been sent by write()", "iterated", "handed over", None)
     if short:
